@@ -298,6 +298,13 @@ def check(model, rep, tier):
         if f is not None:
             forwarded_parameter_obligations(model, rep, f, "output_shape", callees, "1 reducers")
     rep.floor("FWDP", 8, "(output_shape handed from the averaging entry points to the stack builders)")
+    # the half maps returned with the FSC are the members of each split (shared with C17)
+    from .C17 import halfmap_selection_obligations
+    try:
+        fh = model.func(LB + "fsc_with_halfmaps")
+        halfmap_selection_obligations(rep, fh, LB + "fsc_with_halfmaps", "2 halves")
+    except KeyError:
+        pass
     # the per-tomogram loaders a batch averages over are rebuilt with every setting of the batch (order, scale, output_shape, corner_safe)
     from .generic import rebuild_ctor_obligations, functions_in
     rebuild_ctor_obligations(model, rep, functions_in(model, ["acryo/loader/_batch.py"]), "1 reducers")
